@@ -9,6 +9,6 @@ mkdir -p bin evidence replays
 T=$(mktemp -d -p /dev/shm 2>/dev/null || mktemp -d)
 trap 'rm -rf "$T"' EXIT
 ./bin/verif-instrument -repo "${VERIF_REPO:-/repo}" -out "$T/ov" -go go1.26.8 >/dev/null
-cp sim/go.mod "$T/go.mod"; cat "${VERIF_REPO:-/repo}/go.sum" sim/go.sum.extra > "$T/go.sum"
+cp sim/go.mod "$T/go.mod"; XS=$(cd "${VERIF_REPO:-/repo}" && go1.26.8 list -m -f '{{.Dir}}' golang.org/x/sync); cp -r "$XS" "$T/xsync"; chmod -R u+w "$T/xsync"; cp "$T/ov/golang.org/x/sync/singleflight/singleflight.go" "$T/xsync/singleflight/singleflight.go"; echo "replace golang.org/x/sync => $T/xsync" >> "$T/go.mod"; cat "${VERIF_REPO:-/repo}/go.sum" sim/go.sum.extra > "$T/go.sum"
 (cd sim && go1.26.8 test -c -modfile="$T/go.mod" -tags verif -vet=off -overlay "$T/ov/overlay.json" -o "$T/sim.test" .)
 echo setup ok
